@@ -286,13 +286,16 @@ def run(chk):
     ss = fn(p, "hmac_secret::select_salts")
     if chk.require("R4 select_salts", "R4|select_salts", ss, "passkey_authenticator", "select_salts not found"):
         chk.touched(ss)
+        ro_ss = param_roles(ss, cid="[u8]", req="AuthenticatorPrfInputs")
+        P_ID, P_REQ = ("param", ro_ss["cid"] or 1), ("param", ro_ss["req"] or 2)
+        chk.require("R4 select_salts", "R4|select_salts|roles", None not in ro_ss.values(), where(ss), "parameters not identified by type (credential id bytes, PRF inputs): %s" % ro_ss)
         rows = normal.rows(S, ss, N, expand=False, deep=True)
         # the table in normal form: which stored entry feeds the salts, and under which presence tests
-        is_ebc_t = lambda y: y == ("field", ("param", 2), "eval_by_credential")
+        is_ebc_t = lambda y: y == ("field", P_REQ, "eval_by_credential")
         # the matching entry: found by Iterator::find over the per-credential map, or yielded by next() of a loop over it
         is_find = lambda x: (is_call(x, "Iterator::find") and has(x[2][0], is_ebc_t)) or (is_call(x, "Iterator::next") and has(flow.iterator_source(x[2][0]) or (), is_ebc_t))
-        is_eval = lambda x: x == ("field", ("param", 2), "eval")
-        is_ebc = lambda x: x == ("field", ("param", 2), "eval_by_credential")
+        is_eval = lambda x: x == ("field", P_REQ, "eval")
+        is_ebc = lambda x: x == ("field", P_REQ, "eval_by_credential")
         somes = [o for o in rows if o.variant[:1] == ("Some",)]
         nones = [o for o in rows if o.variant[:1] == ("None",)]
         per_cred = [o for o in somes if has(o.value, is_find)]
@@ -302,10 +305,10 @@ def run(chk):
             fnd = find(o.value, is_find)
             if fnd is not None and is_call(fnd, "Iterator::find"):
                 pred = closure_ret(p, fnd[2][1])
-                okp = pred is not None and has(pred, lambda x: is_call(x, "PartialEq::eq")) and has(pred, lambda x: x == ("param", 1))
+                okp = pred is not None and has(pred, lambda x: is_call(x, "PartialEq::eq")) and has(pred, lambda x: x == P_ID)
             else:
                 # loop form: the row is taken on the true edge of `credential id == key of the yielded entry`
-                okp = fnd is not None and any((flow.eq_test(t, l) or (None, None))[1] is True and ("param", 1) in flow.eq_test(t, l)[0] and any(has(y, lambda z: z == fnd) for y in flow.eq_test(t, l)[0]) for t, l, f, w in o.conds)
+                okp = fnd is not None and any((flow.eq_test(t, l) or (None, None))[1] is True and P_ID in flow.eq_test(t, l)[0] and any(has(y, lambda z: z == fnd) for y in flow.eq_test(t, l)[0]) for t, l, f, w in o.conds)
             matched = any(flow.asserts_ok(t, l, is_find) for t, l, f, w in o.conds)
             ok1 = ok1 and okp and matched and not has(o.value, is_eval)
         # the default entry is used only when no per-credential entry matched (map absent, or no key equals the id) and exists
@@ -324,12 +327,15 @@ def run(chk):
         chk.touched(ge)
         T = flow.Terms(p, gp)
         cs = names.calls_to(gp, "hmac_secret::select_salts")
-        ok = bool(cs) and flow.simplify_term(T.operand(cs[0][1]["args"][0], cs[0][0], "t")) == ("param", 2)
+        ro_gp = param_roles(gp, cid="[u8]")
+        ss_ = fn(p, "hmac_secret::select_salts")
+        ai_ = (param_roles(ss_, cid="[u8]")["cid"] or 1) - 1 if ss_ is not None else 0
+        ok = bool(cs) and ro_gp["cid"] is not None and flow.simplify_term(T.operand(cs[0][1]["args"][ai_], cs[0][0], "t")) == ("param", ro_gp["cid"])
         okc = False
         for nb in p.nested(ge.path):
             for bb, t in nb.calls():
                 if names.call_is(t, "Authenticator::get_prf"):
-                    v = flow.simplify_term(flow.Terms(p, nb).operand(t["args"][1], bb, "t"))
+                    v = flow.simplify_term(flow.Terms(p, nb).operand(t["args"][(ro_gp["cid"] or 2) - 1], bb, "t"))
                     okc = has(v, lambda x: isinstance(x, tuple) and len(x) == 3 and x[0] == "field" and x[2] == "credential_id") or (v[0] == "field" and v[1] == ("param", 1))
                     if v[0] == "field" and v[1] == ("param", 1):
                         # capture: resolve in get_extensions
